@@ -82,9 +82,10 @@ Theorem diff1_keepaxis sc i a res :
   axes res = axes a /\ attrs res = attrs a /\
   forall c, inb (sh (vals res)) c = true ->
     get (vals res) c =
-    nth (nth i c 0) (match sc with
+    nth (nth i c 0) (pad_num (kd (vals a))
+                    (match sc with
                      | Backward => CNaN :: diff_fibre (fibre (vals a) i (remove_nth i c))
-                     | _ => diff_fibre (fibre (vals a) i (remove_nth i c)) ++ [CNaN] end) CNaN.
+                     | _ => diff_fibre (fibre (vals a) i (remove_nth i c)) ++ [CNaN] end)) CNaN.
 Proof.
   intros Hwf Hsc. unfold diff1. destruct sc; try congruence; cbv zeta;
   destruct (alen (nth i (axes a) dax0) =? 0); try discriminate; intros [= <-]; simpl;
